@@ -911,6 +911,28 @@ func genWalkers(repo string) (string, error) {
 				if ta, ok := as2.Rhs[0].(*ast.TypeAssertExpr); ok && ta.Type != nil && exprStringDeep(ta.Type) == "xml.StartElement" {
 					okName := exprStringDeep(as2.Lhs[1])
 					if is, ok := body[idx+1].(*ast.IfStmt); ok && is.Init == nil && is.Else == nil && endsWithContinue(is.Body.List) && len(is.Body.List) == 1 {
+						// if !ok || A != x || B != y { continue } followed by what is done otherwise: by De Morgan the rest
+						// runs under ok && A == x && B == y
+						if guard, isChain := negatedGuard(is.Cond, okName); isChain && !w.depth {
+							rest := body[idx+2:]
+							synth := &ast.IfStmt{Cond: guard, Body: &ast.BlockStmt{List: rest}}
+							before := len(w.cases)
+							if err := c.casesOf([]ast.Stmt{synth}, w, where); err != nil {
+								return "", err
+							}
+							if n := len(rest); n > 0 {
+								if br, ok := rest[n-1].(*ast.BranchStmt); ok && br.Tok == token.BREAK && br.Label == nil {
+									for i := before; i < len(w.cases); i++ {
+										w.cases[i].h.stop = true
+									}
+								}
+							}
+							if !w.eofOK {
+								return "", fmt.Errorf("%s: the loop never returns on an end element", where)
+							}
+							ws = append(ws, w)
+							continue
+						}
 						if ue, ok := is.Cond.(*ast.UnaryExpr); ok && ue.Op == token.NOT && exprStringDeep(ue.X) == okName && !w.depth {
 							if err := c.casesOf(body[idx+2:], w, where); err != nil {
 								return "", err
@@ -1367,4 +1389,53 @@ func ifAssertsToSwitch(stmts []ast.Stmt) (*ast.TypeSwitchStmt, bool) {
 		ts.Body.List = append(ts.Body.List, &ast.CaseClause{List: []ast.Expr{ta.Type}, Body: blist})
 	}
 	return ts, true
+}
+
+// negatedGuard: for a condition `!ok || d1 || d2 ...` (at least one further disjunct, each a != comparison, a negated
+// call or a negated parenthesis) the conjunction of the negated disjuncts after !ok
+func negatedGuard(cond ast.Expr, okName string) (ast.Expr, bool) {
+	var disj []ast.Expr
+	var flat func(e ast.Expr)
+	flat = func(e ast.Expr) {
+		if b, ok := e.(*ast.BinaryExpr); ok && b.Op == token.LOR {
+			flat(b.X)
+			flat(b.Y)
+			return
+		}
+		disj = append(disj, e)
+	}
+	flat(cond)
+	if len(disj) < 2 {
+		return nil, false
+	}
+	first, ok := disj[0].(*ast.UnaryExpr)
+	if !ok || first.Op != token.NOT || exprStringDeep(first.X) != okName {
+		return nil, false
+	}
+	var out ast.Expr
+	for _, d := range disj[1:] {
+		var neg ast.Expr
+		switch x := d.(type) {
+		case *ast.BinaryExpr:
+			switch x.Op {
+			case token.NEQ:
+				neg = &ast.BinaryExpr{X: x.X, Op: token.EQL, Y: x.Y}
+			default:
+				return nil, false
+			}
+		case *ast.UnaryExpr:
+			if x.Op != token.NOT {
+				return nil, false
+			}
+			neg = x.X
+		default:
+			return nil, false
+		}
+		if out == nil {
+			out = neg
+		} else {
+			out = &ast.BinaryExpr{X: out, Op: token.LAND, Y: neg}
+		}
+	}
+	return out, true
 }
